@@ -296,6 +296,9 @@ def gen_fees(rng, n, tier):
                     tags.add("fee:ibtp")
                 elif k > 0.78:
                     txs.append(f"bvm {a} txmgr Begin s:1356:c1:s1-1356:c2:s1-1 u:3 b:0")
+                elif k > 0.70:
+                    txs.append(eth_tx(r, a))
+                    tags.add("eth")
                 else:
                     txs.append(f"xfer {a} {b} {amt}")
             ops.append("block " + " | ".join(txs))
@@ -333,6 +336,16 @@ def bvm_call(r, ids):
                     addr="0x00000000000000000000000000000000000000b" + str(r.randint(0, 3)))
 
 
+def eth_tx(r, who):
+    k = r.random()
+    if k < 0.4:
+        return f"eth {who} {r.choice(USERS + ['n0'])} {r.choice([0, 7])} {r.choice([20000, 20999, 1])} {r.choice([1, 1000, 100000])}"      # gas limit below the intrinsic gas
+    if k < 0.8:
+        gp = r.choice([1000, 100000])
+        return f"eth {who} {r.choice(USERS + ['n0'])} {10 ** 12 - r.choice([0, 1, 21000 * gp - 1])} 21000 {gp}"                  # value not affordable after buying gas
+    return f"eth {who} {r.choice(USERS + ['n0'])} {r.choice([0, 7, 1000])} {r.choice([21000, 50000])} {r.choice([0, 1, 1000])}"     # fine
+
+
 def gen_c07(rng, n, tier):
     """Failing transactions at every stage (check-rejected, contract error, fee failure after processing) from fee-starved
     signers, each bracketed by full state dumps; read-only (view) executions bracketed the same way."""
@@ -367,8 +380,14 @@ def gen_c07(rng, n, tier):
                     chain = (ws[2] if ws[5] == "req" else ws[3]).split(":")[0]
                     ws[1] = ADMIN[chain] if r.random() < 0.8 else p
                     txs.append(" ".join(ws))
-                elif m < 0.8:
+                elif m < 0.7:
                     txs.append(f"bvm {p} " + bvm_call(r, g.ids))
+                elif m < 0.85:
+                    # an Ethereum transaction the EVM refuses in its pre-checks (after it has bought the gas): gas limit below the
+                    # intrinsic gas, or a value the sender cannot afford once the gas is paid for; sent by a funded account
+                    who = r.choice([u for u in USERS if u not in poor] or USERS)
+                    txs.append(eth_tx(r, who))
+                    g.tags.add("eth")
                 else:
                     txs.append(f"xfer {p} {r.choice(USERS)} {r.choice(['0', '1', '5', '999999999999999', 'abc', '-3'])}")
             g.ops.append("q dump")
